@@ -493,9 +493,10 @@ class FnA:
             ops = [self.origin_operand(o, bi, si, depth, seen) for o in rv["ops"]]
             if rv["kind"] == "adt":
                 # re-wrapping a payload in its own variant is the value itself: Some(x) where x is
-                # the Some-payload of X  ==  X   (likewise Ok / Err)
+                # the Some-payload of X  ==  X   (likewise Ok; an Err stays an Err aggregate so that error
+                # values remain recognisable as such)
                 if len(ops) == 1 and rv.get("name") in ("std::option::Option", "std::result::Result") and isinstance(ops[0], tuple) and len(ops[0]) == 2 \
-                        and (rv["variant"], ops[0][0]) in (("Some", "some"), ("Ok", "ok"), ("Err", "err")):
+                        and (rv["variant"], ops[0][0]) in (("Some", "some"), ("Ok", "ok")):
                     return ops[0][1]
                 return ("agg", rv["name"], rv["variant"], tuple(zip(rv["fields"], ops)))
             if rv["kind"] in ("closure", "coroutine", "coroutine_closure"):
@@ -522,6 +523,14 @@ class FnA:
             return ("poll", self.origin_operand(args[0], bi, pos, depth, seen))
         if callee in BRANCH:
             return ("branch", self.origin_operand(args[0], bi, pos, depth, seen), bi)
+        if callee in FROM_RESIDUAL and args:
+            # what `?` returns on failure: Err(From::from(e)) with e the error of the tested value (the
+            # From conversion is transparent, like map_err) — for an opaque tested value x this is x
+            # itself; for Option it is None
+            if (t.get("dest_ty") or "").startswith("std::option::Option<"):
+                return ("agg", "std::option::Option", "None", ())
+            e = self.origin_operand(args[0], bi, pos, depth, seen)
+            return ("agg", "std::result::Result", "Err", (("0", e),))
         if callee == "std::boxed::box_assume_init_into_vec_unsafe" and args:
             v = self._vec_macro_contents(args[0], bi, pos, depth, seen)
             if v is not None:
